@@ -122,6 +122,25 @@ def load_ref():
         return json.load(f)
 
 
+def _explode(recs):
+    """Atomic records: one value per field (cartesian product), so that merging or splitting branches that build the same
+    nodes does not change the compared normal form."""
+    import itertools
+    out = set()
+    for c, f in recs:
+        keys = sorted(f)
+        vals = [f[k] if isinstance(f[k], list) and f[k] else [f[k]] for k in keys]
+        size = 1
+        for v in vals:
+            size *= len(v)
+        if size > 256:
+            out.add((c, tuple((k, tuple(f[k])) for k in keys)))
+            continue
+        for combo in itertools.product(*vals):
+            out.add((c, tuple(zip(keys, combo))))
+    return out
+
+
 def diff_method(ref_m, cur_m, field_filter, want_returns=True, want_appends=True):
     """List of (kind, detail) differences between reference and current wiring of one method, restricted to selected fields."""
     out = []
@@ -129,33 +148,37 @@ def diff_method(ref_m, cur_m, field_filter, want_returns=True, want_appends=True
     cr = [(c, {k: v for k, v in f.items() if field_filter(c, k)}) for c, f in cur_m.get("records", [])]
     rr = [(c, f) for c, f in rr if f]
     cr = [(c, f) for c, f in cr if f]
-    unmatched_ref = list(rr)
-    unmatched_cur = []
-    for c, f in cr:
-        if (c, f) in unmatched_ref:
-            unmatched_ref.remove((c, f))
-        else:
-            unmatched_cur.append((c, f))
-    # pair the leftovers by class and greatest agreement for a readable report
-    for c, f in unmatched_cur:
+    ra, ca = _explode(rr), _explode(cr)
+    missing, extra = ra - ca, ca - ra
+    # pair leftovers of the same class by greatest agreement for a readable report
+    missing_l = sorted(missing)
+    for c, f in sorted(extra):
+        fd = dict(f)
         best, score = None, -1
-        for c2, f2 in unmatched_ref:
+        for c2, f2 in missing_l:
             if c2 != c:
                 continue
-            sc = sum(1 for k in f if f.get(k) == f2.get(k))
+            f2d = dict(f2)
+            sc = sum(1 for k in fd if fd.get(k) == f2d.get(k))
             if sc > score:
                 best, score = (c2, f2), sc
         if best is None:
-            out.append(("extra-node", f"{c}({f})"))
+            out.append(("extra-node", f"{c}({fd})"))
         else:
-            unmatched_ref.remove(best)
-            for k in sorted(set(f) | set(best[1])):
-                if f.get(k) != best[1].get(k):
-                    out.append(("field", f"{c}.{k}: expected {best[1].get(k)} found {f.get(k)}"))
-    for c, f in unmatched_ref:
-        out.append(("missing-node", f"{c}({f})"))
+            missing_l.remove(best)
+            bd = dict(best[1])
+            for k in sorted(set(fd) | set(bd)):
+                if fd.get(k) != bd.get(k):
+                    out.append(("field", f"{c}.{k}: expected {bd.get(k)} found {fd.get(k)}"))
+    for c, f in missing_l:
+        out.append(("missing-node", f"{c}({dict(f)})"))
     if want_returns and sorted(ref_m.get("returns", [])) != sorted(cur_m.get("returns", [])):
         out.append(("returns", f"expected {ref_m.get('returns')} found {cur_m.get('returns')}"))
-    if want_appends and ref_m.get("appends", {}) != cur_m.get("appends", {}):
-        out.append(("appends", f"expected {ref_m.get('appends')} found {cur_m.get('appends')}"))
+    if want_appends:
+        def norm_app(a):
+            return sorted((tgt, tuple(sorted(p)), op) for tgt, lst in a.items() for provs, op in lst for p in [provs])
+        ra2 = {(tgt, v, op) for tgt, lst in ref_m.get("appends", {}).items() for provs, op in lst for v in provs}
+        ca2 = {(tgt, v, op) for tgt, lst in cur_m.get("appends", {}).items() for provs, op in lst for v in provs}
+        if ra2 != ca2:
+            out.append(("appends", f"expected {sorted(ra2 - ca2)} found {sorted(ca2 - ra2)}"))
     return out
